@@ -629,8 +629,16 @@ func runOver(c *overCase, rounds int) string {
 				wg.Done()
 			}()
 		}
-		swg.Wait()
-		if n := wg.Num(); n != 0 || panics.Load() != int64(c.Extra) || foreign.Load() != 0 {
+		// a Done that never returns (the group stays locked after a rejected
+		// decrement) must not hang the check
+		if finished, stuck := vkit.Bounded(4*vkit.Limit(), swg.Wait); !finished {
+			return fmt.Sprintf("counter %d, %d concurrent Done calls: not all of them have returned after %v (round %d):\n%s", c.K, c.K+c.Extra, 4*vkit.Limit(), r, stuck)
+		}
+		var n int
+		if finished, _ := vkit.Bounded(vkit.Limit(), func() { n = wg.Num() }); !finished {
+			return fmt.Sprintf("counter %d, %d concurrent Done calls: Num() does not return afterwards (round %d)", c.K, c.K+c.Extra, r)
+		}
+		if n != 0 || panics.Load() != int64(c.Extra) || foreign.Load() != 0 {
 			return fmt.Sprintf("counter %d, %d concurrent Done calls: %d of them panicked with an invariant violation (want %d, other panics %d) and Num() ended at %d (want 0) (round %d)", c.K, c.K+c.Extra, panics.Load(), c.Extra, foreign.Load(), n, r)
 		}
 	}
